@@ -1,5 +1,6 @@
 import E3nnVerif.Theory.WignerDSound
 import E3nnVerif.Theory.IrrepsBook
+import E3nnVerif.Props.C12
 import E3nnVerif.Cert.Gen
 import E3nnVerif.Cert.C03GenY
 import E3nnVerif.Cert.C03GenA
@@ -221,9 +222,9 @@ theorem wignerD_zero_degree (α β γ : ℝ) : wignerD 0 α β γ = 1 := by
     intro a ha
     have hs := genCert_skew Cert.Gen.gen_0 a ha
     ext i j
-    have hi : i = 0 := Subsingleton.elim _ _
-    have hj : j = 0 := Subsingleton.elim _ _
-    have := congrFun (congrFun hs 0) 0
+    have hi : i = ⟨0, by omega⟩ := Fin.ext (by omega)
+    have hj : j = ⟨0, by omega⟩ := Fin.ext (by omega)
+    have := congrFun (congrFun hs ⟨0, by omega⟩) ⟨0, by omega⟩
     simp only [Matrix.transpose_apply, Matrix.neg_apply] at this
     rw [hi, hj, Matrix.zero_apply]; linarith
   unfold wignerD eulerD
@@ -317,11 +318,10 @@ def WignerDFactorsThroughSO3 (l : ℕ) : Prop :=
 
 theorem wignerD_factors_through_SO3_of_hom {l : ℕ} (h : WignerDHom l) : WignerDFactorsThroughSO3 l := by
   intro a b c a' b' c' e
-  have := h a b c a' b' c' 0 0 0 (by
-    rw [e, C12.identity_angles_matrix.symm.symm ▸ rfl]
+  have hid : toMatrix (angles_to_matrix (0 : ℝ) 0 0) = 1 := by
     have := C12.identity_angles_matrix
-    simp only [identity_angles, zero_real] at this
-    rw [this, Matrix.mul_one])
+    simpa only [identity_angles, zero_real] using this
+  have := h a b c a' b' c' 0 0 0 (by rw [e, hid, Matrix.mul_one])
   rw [this, wignerD_zero, Matrix.mul_one]
 
 /-- `l = 0` -/
@@ -411,15 +411,23 @@ theorem irrepsD_eq (irs : Irreps) (α β γ : ℝ) (k : ℤ) :
       if (∀ e ∈ irs, e.1 = 0) then .error .index
       else .ok ⟨Model.Irreps.dim irs, ds (irrepsBlocks irs α β γ k)⟩ := by
   unfold irrepsD directSum
-  rw [← Theory.Irreps.blocks_eq_nil_iff]
-  cases hb : blocks irs with
-  | nil => simp [irrepsBlocks, hb]
-  | cons ir rest =>
-    have : irrepsBlocks irs α β γ k ≠ [] := by simp [irrepsBlocks, hb]
+  have hnil : (∀ e ∈ irs, e.1 = 0) ↔ blocks irs = [] := (Theory.Irreps.blocks_eq_nil_iff irs).symm
+  by_cases h : ∀ e ∈ irs, e.1 = 0
+  · rw [if_pos h]
+    have := hnil.mp h
+    simp [irrepsBlocks, this]
+  · rw [if_neg h]
+    have hb : blocks irs ≠ [] := fun e => h (hnil.mpr e)
     have hd := irrepsBlocks_dim irs α β γ k
+    have hlen := irrepsBlocks_length irs α β γ k
     cases hbl : irrepsBlocks irs α β γ k with
-    | nil => exact absurd hbl this
-    | cons x xs => simp [← hd, hbl]
+    | nil =>
+      exfalso; apply hb
+      rw [hbl] at hlen
+      exact List.length_eq_zero_iff.mp hlen.symm
+    | cons x xs =>
+      rw [hbl] at hd
+      simp [← hd]
 
 /-- offsets of the blocks are the running sums of `2l+1`, in the order of the `Irreps` (with repetitions) -/
 theorem irrepsBlocks_layout (irs : Irreps) (α β γ : ℝ) (k : ℤ) :
@@ -493,9 +501,10 @@ theorem irrepsD_inverse (irs : Irreps) (hg : ∀ ir ∈ blocks irs, genCert ir.l
   intro ir hir
   refine ⟨rfl, ?_⟩
   intro r hr c hc
-  rw [ofMatrix_n] at hr hc
+  have hr' : r < 2 * ir.l + 1 := hr
+  have hc' : c < 2 * ir.l + 1 := hc
   simp only [Function.comp, transposeBlock]
-  rw [ofMatrix_e _ r c hr hc, ofMatrix_e _ c r hc hr, irrepD_inverse ir (hg ir hir) (hy ir hir)]
+  rw [ofMatrix_e _ r c hr' hc', ofMatrix_e _ c r hc' hr', irrepD_inverse ir (hg ir hir) (hy ir hir)]
   rfl
 
 end irreps
@@ -542,7 +551,8 @@ theorem irrepD_from_matrix_improper (ir : Irrep) (R : Mat3 ℝ) (hR : toMatrix R
 theorem irrepD_from_matrix_neg_one (ir : Irrep) :
     irrepD_from_matrix ir (smul3 (-1) Mat3.one) = .ok (((ir.p.toInt : ℤ) : ℝ) • 1) := by
   have hd : (smul3 (-1) (Mat3.one : Mat3 ℝ)).det = -1 := by
-    rw [det_smul3]; simp [Mat3.det, Mat3.one, Scalar.one, Scalar.zero]
+    have h1 : (Mat3.one : Mat3 ℝ).det = 1 := by simp [Mat3.det, Mat3.one, Scalar.one, Scalar.zero]
+    rw [det_smul3, h1]; norm_num
   have hk : kOfSign (-1) = 1 := by decide
   simp only [irrepD_from_matrix, hd, signR_neg_one, Int.cast_neg, Int.cast_one, smul3_smul3, hk]
   rw [show (-1 : ℝ) * -1 = 1 by norm_num, smul3_one, matrix_to_angles_one]
@@ -573,7 +583,7 @@ theorem irrepD_from_matrix_error_iff (ir : Irrep) (R : Mat3 ℝ) :
 /-- **angles ↔ matrix**: `D_from_matrix(angles_to_matrix(α,β,γ))` and `D_from_angles(α,β,γ)` are `D` of angle triples
 with the SAME rotation matrix — for every degree -/
 theorem irrepD_from_matrix_angles (ir : Irrep) (α β γ : ℝ) :
-    ∃ a, angles_to_matrix a.alpha a.beta a.gamma = angles_to_matrix α β γ ∧
+    ∃ a : Angles ℝ, angles_to_matrix a.alpha a.beta a.gamma = angles_to_matrix α β γ ∧
       irrepD_from_matrix ir (angles_to_matrix α β γ) = .ok (irrepD ir a.alpha a.beta a.gamma 0) := by
   obtain ⟨a, _, h2, h3⟩ := irrepD_from_matrix_rotation ir _ (C12.angles_to_matrix_mem_SO3 α β γ)
   exact ⟨a, h2, h3⟩
@@ -587,25 +597,23 @@ theorem irrepD_from_matrix_angles_partial (ir : Irrep) (hg : genCert ir.l = true
   simp only [irrepD, wigner_D_eq hg hy, hf _ _ _ _ _ _ h1]
 
 /-- proved outright for `l = 0` and `l = 1` (both parities) -/
-theorem irrepD_from_matrix_angles_l01 (ir : Irrep) (hl : ir.l ≤ 1) (α β γ : ℝ) :
-    irrepD_from_matrix ir (angles_to_matrix α β γ) = .ok (irrepD ir α β γ 0) := by
-  obtain ⟨l, p⟩ := ir
-  simp only at hl
-  interval_cases l
-  · exact irrepD_from_matrix_angles_partial _ Cert.Gen.gen_0 Cert.C03.genY_0 wignerD_factors_through_SO3_zero α β γ
-  · exact irrepD_from_matrix_angles_partial _ Cert.Gen.gen_1 Cert.C03.genY_1 wignerD_factors_through_SO3_one α β γ
+theorem irrepD_from_matrix_angles_l01 (p : Parity) (α β γ : ℝ) :
+    irrepD_from_matrix ⟨0, p⟩ (angles_to_matrix α β γ) = .ok (irrepD ⟨0, p⟩ α β γ 0) ∧
+    irrepD_from_matrix ⟨1, p⟩ (angles_to_matrix α β γ) = .ok (irrepD ⟨1, p⟩ α β γ 0) :=
+  ⟨irrepD_from_matrix_angles_partial ⟨0, p⟩ Cert.Gen.gen_0 Cert.C03.genY_0 wignerD_factors_through_SO3_zero α β γ,
+   irrepD_from_matrix_angles_partial ⟨1, p⟩ Cert.Gen.gen_1 Cert.C03.genY_1 wignerD_factors_through_SO3_one α β γ⟩
 
 /-- quaternion and axis-angle forms never raise and are `D` of angles with the same rotation matrix as
 `quaternion_to_matrix q` / `axis_angle_to_matrix axis angle` (which C12 identifies with the conjugation by `q` /
 Rodrigues' rotation away from the singular strata) -/
 theorem irrepD_from_quaternion_matrix (ir : Irrep) (q : Quat ℝ) (k : ℤ) :
-    ∃ a, angles_to_matrix a.alpha a.beta a.gamma = quaternion_to_matrix q ∧
+    ∃ a : Angles ℝ, angles_to_matrix a.alpha a.beta a.gamma = quaternion_to_matrix q ∧
       irrepD_from_quaternion ir q k = .ok (irrepD ir a.alpha a.beta a.gamma k) := by
   obtain ⟨a, h1, h2⟩ := C12.quaternion_to_angles_matrix q
   exact ⟨a, h2, by simp [irrepD_from_quaternion, h1, orAssert, Except.map]⟩
 
 theorem irrepD_from_axis_angle_matrix (ir : Irrep) (axis : Vec3 ℝ) (angle : ℝ) :
-    ∃ a, angles_to_matrix a.alpha a.beta a.gamma = axis_angle_to_matrix axis angle ∧
+    ∃ a : Angles ℝ, angles_to_matrix a.alpha a.beta a.gamma = axis_angle_to_matrix axis angle ∧
       irrepD_from_axis_angle ir axis angle = .ok (irrepD ir a.alpha a.beta a.gamma 0) := by
   obtain ⟨a, h1, h2⟩ := C12.axis_angle_to_angles_matrix axis angle
   exact ⟨a, h2, by simp [irrepD_from_axis_angle, h1, orAssert, Except.map]⟩
@@ -641,7 +649,7 @@ theorem irrepD_from_matrix_l1 (p : Parity) (R : Mat3 ℝ) (hR : toMatrix R ∈ S
 
 /-- Irreps versions: the error precedence of the code (assertion first, then `IndexError`) -/
 theorem irrepsD_from_matrix_eq (irs : Irreps) (R : Mat3 ℝ) (hR : toMatrix R ∈ SO3) :
-    ∃ a, angles_to_matrix a.alpha a.beta a.gamma = R ∧
+    ∃ a : Angles ℝ, angles_to_matrix a.alpha a.beta a.gamma = R ∧
       irrepsD_from_matrix irs R = irrepsD irs a.alpha a.beta a.gamma 0 ∧
       irrepsD_from_matrix irs (smul3 (-1) R) = irrepsD irs a.alpha a.beta a.gamma 1 := by
   obtain ⟨a, h1, h2⟩ := C12.matrix_to_angles_roundtrip R hR
@@ -670,7 +678,8 @@ example : genCert 3 = true ∧ genYBlockCheck 3 = true := certified 3 (by omega)
 /-- a non-trivial value: `D^1(π/2, 0, 0)` maps `e_z ↦ e_x` (`matrix_y(π/2)`) -/
 example : wigner_D 1 (Real.pi / 2) 0 0 = !![0, 0, 1; 0, 1, 0; -1, 0, 0] := by
   rw [wigner_D_one]
-  simp [angles_to_matrix, matrix_x_zero, matrix_y_zero, Mat3.mul_one', toMatrix, matrix_y]
+  simp only [angles_to_matrix, matrix_x_zero, matrix_y_zero, Mat3.mul_one']
+  simp [toMatrix, matrix_y]
 /-- `blockRotY` at `l = 1` really is `matrix_y` -/
 example (θ : ℝ) : blockRotY 1 θ = toMatrix (matrix_y θ) := by
   rw [← expM_genY Cert.C03.genY_1, (expM_genR_one θ).2.1]
